@@ -433,7 +433,7 @@ func genListCase(rt *rapid.T, maxN int) listCase {
 	if maxName == 0 {
 		maxName = 40
 	}
-	c.Msize = rapid.SampledFrom([]uint32{512, 4096, 65536, 1 << 20}).Draw(rt, "msize")
+	c.Msize = rapid.SampledFrom([]uint32{330, 400, 512, 4096, 65536, 1 << 20}).Draw(rt, "msize")
 	if c.Via == "direct" {
 		c.Count = rapid.SampledFrom([]uint32{1, 2, 3, 10, 1000, 1 << 31}).Draw(rt, "count")
 	} else {
